@@ -317,6 +317,19 @@ pub fn run(seed: u64, count: usize, max_n: usize, out: &mut impl Write) {
                 let pp = dir.join("map.txt");
                 std::fs::write(&pp, f.iter().map(|x| format!("{x}\n")).collect::<String>()).unwrap();
                 xop = format!("map:{}:{}", n2, fmt_ints(&f));
+                // a declared number of nodes that the map exceeds cannot be honoured: the
+                // command must fail (exit status != 0), not write a graph with successors
+                // outside its node range
+                if rng.chance(4, 5) {
+                    let top = *f.iter().max().unwrap();
+                    let m = if rng.chance(2, 3) { top } else { rng.below(top + 1) };
+                    let baseb = dir.join("badmap");
+                    let mut ab = vec![s("transform"), s("map"), p(&base0), p(&baseb), p(&pp), s("--num-nodes"), m.to_string(), s("-t"), s("1")];
+                    if rng.chance(1, 2) { ab.push(s("-s")); }
+                    let eb = exec(&ab, None, 60);
+                    cx.note("map_badnum", &format!("badexit={} kind=numnodes{}of{} bfiles={}", eb.code, m, top + 1,
+                        baseb.with_extension("properties").exists() as u8));
+                }
                 ("map", vec![s("transform"), s("map"), p(&base0), p(&base3), p(&pp), s("--num-nodes"), n2.to_string(), s("-t"), tt], map_graph(&g, &f, n2))
             }
         };
